@@ -98,6 +98,41 @@ theorem C15_tarjan_sccs (g : Graph) (cs : List (List Nat)) (h : findCycles g = .
     · obtain ⟨b, he, _⟩ := ReachP.head ha
       exact hinv.compsAll a (hall a (edge_src_key he)) (by simp [hstk]) ha
 
+/-- The same in the wording of the code ("components of size 1 without a self-edge are not
+included"): the result is, as a set of sets, `{C | C SCC of g ∧ (|C| > 1 ∨ self-edge)}`. -/
+theorem C15_tarjan_sccs_literal (g : Graph) (cs : List (List Nat)) (h : findCycles g = .ok cs) :
+    (∀ C ∈ cs, C.Nodup ∧ IsSCC g C ∧ (C.length > 1 ∨ ∃ a, C = [a] ∧ Edge g a a)) ∧
+    (∀ C, C.Nodup → IsSCC g C → (C.length > 1 ∨ ∃ a, C = [a] ∧ Edge g a a) →
+      ∃ C' ∈ cs, ∀ x, x ∈ C ↔ x ∈ C') := by
+  obtain ⟨h1, h2, _⟩ := C15_tarjan_sccs g cs h
+  constructor
+  · intro C hC
+    obtain ⟨hnd, hscc, hcyc⟩ := h1 C hC
+    refine ⟨hnd, hscc, ?_⟩
+    match C, hscc, hcyc with
+    | [], hscc, _ => exact absurd rfl hscc.1
+    | [a], hscc, hcyc =>
+      right
+      obtain ⟨b, he, hr⟩ := ReachP.head (hcyc a (by simp))
+      have hb : b ∈ [a] := (hscc.2 a (by simp) b).mpr ⟨.single he, hr⟩
+      simp only [List.mem_singleton] at hb
+      subst hb
+      exact ⟨b, rfl, he⟩
+    | _ :: _ :: _, _, _ => left; simp
+  · intro C hnd hscc hnt
+    have hcyc : ∃ a ∈ C, cyclic g a := by
+      rcases hnt with hlen | ⟨a, rfl, he⟩
+      · match C, hnd, hscc, hlen with
+        | a :: b :: _, hnd, hscc, _ =>
+          have hab : a ≠ b := by
+            intro e; subst e; simp at hnd
+          exact ⟨a, by simp, cyclic_of_mutual_ne ((hscc.2 a (by simp) b).mp (by simp)) hab⟩
+      · exact ⟨a, by simp, .single he⟩
+    obtain ⟨a, haC, hca⟩ := hcyc
+    obtain ⟨C', hC', haC'⟩ := h2 a hca
+    refine ⟨C', hC', fun x => ?_⟩
+    rw [hscc.2 a haC x, (h1 C' hC').2.1.2 a haC' x]
+
 /-- `C15_cycle_iff`: a "Dependency cycle" error is produced exactly when some definition
 depends on itself through references. -/
 theorem C15_cycle_iff (g : Graph) (cs : List (List Nat)) (h : findCycles g = .ok cs) :
